@@ -271,7 +271,23 @@ func MapUnit(r *core.Rand) *Unit {
 	for _, a := range atoms {
 		switch a.Cmp {
 		case "ISNULL":
-			m[a.Col] = nil
+			// NULL as the caller may write it: nil, a nil pointer, or a nullable wrapper that is not valid
+			switch r.Intn(4) {
+			case 0:
+				if a.Col == "b" {
+					m[a.Col] = sql.NullInt64{}
+				} else {
+					m[a.Col] = sql.NullString{}
+				}
+			case 1:
+				if a.Col == "b" {
+					m[a.Col] = (*int64)(nil)
+				} else {
+					m[a.Col] = (*string)(nil)
+				}
+			default:
+				m[a.Col] = nil
+			}
 		default:
 			m[a.Col] = a.Val
 		}
@@ -330,9 +346,9 @@ func clauseAtom(a *Node) clause.Expression {
 	case "LIKE":
 		return clause.Like{Column: col, Value: a.Val}
 	case "ISNULL":
-		return clause.Eq{Column: col, Value: nil}
+		return clause.Eq{Column: col, Value: nullValue(a.Col, len(a.Col)+len(fmt.Sprint(a.Val)))}
 	case "NOTNULL":
-		return clause.Neq{Column: col, Value: nil}
+		return clause.Neq{Column: col, Value: nullValue(a.Col, 1)}
 	case "IN":
 		var vals []interface{}
 		switch xs := a.Val.(type) {
@@ -348,6 +364,24 @@ func clauseAtom(a *Node) clause.Expression {
 		return clause.IN{Column: col, Values: vals}
 	}
 	panic("clauseAtom")
+}
+
+// nullValue: the NULL of a clause.Eq / clause.Neq as nil, a nullable wrapper that is not valid, or a nil
+// pointer (k varies the form deterministically).
+func nullValue(col string, k int) interface{} {
+	switch k % 3 {
+	case 1:
+		if col == "b" {
+			return sql.NullInt64{}
+		}
+		return sql.NullString{}
+	case 2:
+		if col == "b" {
+			return (*int64)(nil)
+		}
+		return (*string)(nil)
+	}
+	return nil
 }
 
 func clauseTree(n *Node) clause.Expression {
